@@ -177,16 +177,20 @@ static inline size_t
 tpt_msg_active_thr_count_dec(tpt_msg_data_p msg_data, tpt_p src,
     size_t dec) {
 	size_t tm;
+	tpt_msg_done_cb done_cb;
 
 	/* Additional data handling. */
 	MTX_LOCK(&msg_data->lock);
 	msg_data->active_thr_count -= dec;
 	tm = msg_data->active_thr_count;
+	/* msg_data may be on the stack of a synchronous caller that returns
+	 * as soon as the count is zero: do not touch it after unlock. */
+	done_cb = msg_data->done_cb;
 	MTX_UNLOCK(&msg_data->lock);
 	LCB_VERIF_POINT(LCB_VP_BCAST_DEC_AFTER_UNLOCK);
 
 	if (0 != tm ||
-	    NULL == msg_data->done_cb)
+	    NULL == done_cb)
 		return (tm); /* There is other alive threads. */
 	/* This was last thread, so we need do call back done handler. */
 	tpt_msg_send(msg_data->tpt, src,
